@@ -714,8 +714,8 @@ class Fxp():
                     val, signed, n_word, _ = utils.str2num(val, self.signed, self.n_word, None, return_sizes=True)
                     n_frac = self.n_frac
 
-                if n_frac is not None and n_frac == 0:
-                    vdtype = int
+                if raw or (n_frac is not None and n_frac == 0):
+                    vdtype = int    # raw strings are integer codes whatever the fraction length: a float would lose the low bits of 54..63-bit words
                 else:
                     vdtype = float
 
